@@ -73,6 +73,12 @@ declare -A CHECKS=(
  [C16-create-overwrites-warming-up-asset]="C16"
  [C18-import-overwrites-redelegation-queue-slot]="C18"
  [C12-reward-weight-uses-validator-shares]="C12 C13"
+ [C02-complete-skips-zero-entry-keeps-index]="C02 C17"
+ [C06-slash-redelegation-burns-validator-shares]="C06 C03 C07"
+ [C09-transfer-truncates-deduction]="C09 C01"
+ [C14-zero-weight-update-skips-settlement]="C14 C13"
+ [C16-update-skips-changerate-check-at-zero-interval]="C16"
+ [C20-unbonding-suffix-denom-not-length-prefixed]="C20"
 )
 mkdir -p /verif/out/seeded
 ids=("$@"); [ ${#ids[@]} -eq 0 ] && ids=($(ls -d /verif/seeded/*/ | xargs -n1 basename))
